@@ -61,6 +61,8 @@ pub struct World<S: MdkStorageProvider> {
     pub admin_mask: u64,
     pub base_ts: u64,
     pub leave_ev: BTreeMap<usize, u64>,   // member -> its leave proposal event
+    pub retention: usize,
+    pub reopen: Option<Box<dyn Fn(usize) -> S>>,   // persistent backends: reopen client i's database file
 }
 
 pub fn id_order_key(id: &EventId) -> u64 {
@@ -108,7 +110,7 @@ impl<S: MdkStorageProvider> World<S> {
             clients[i].mdk.accept_welcome(&w).unwrap();
         }
         let now = nostr::Timestamp::now().as_secs();
-        let mut w = World { clients, gid, events: BTreeMap::new(), sigma: BTreeMap::new(), msg_ids: BTreeMap::new(), admin_mask: admin_mask | 1, base_ts: now - 5000, leave_ev: BTreeMap::new() };
+        let mut w = World { clients, gid, events: BTreeMap::new(), sigma: BTreeMap::new(), msg_ids: BTreeMap::new(), admin_mask: admin_mask | 1, base_ts: now - 5000, leave_ev: BTreeMap::new(), retention, reopen: None };
         let a = w.auth(0);
         w.sigma.insert(a, 0);
         w
@@ -253,6 +255,17 @@ impl<S: MdkStorageProvider> World<S> {
                     }
                     _ => (format!("{} | refused=1", t.join(" ")), "ok".into()),
                 }
+            }
+            "RESTART" => {
+                // clean shutdown and reopen of member m's library on the same database (persistent backends only)
+                let m = n(2) as usize;
+                let Some(re) = self.reopen.as_ref() else { return (t.join(" "), "skip".into()); };
+                let storage = re(m);
+                let cfg = MdkConfig { epoch_snapshot_retention: self.retention, ..Default::default() };
+                let cb = self.clients[m].cb.clone();
+                let mdk = MDK::builder(storage).with_config(cfg).with_callback(cb).build();
+                self.clients[m].mdk = mdk;
+                (t.join(" "), self.fingerprint(m, "ok", None, None))
             }
             "MERGE" => {
                 let (m, ev) = (n(2) as usize, n(3));
